@@ -368,7 +368,7 @@ STAGES = [
           strategy=lambda tier: strategy_reader(tier),
           examples={
               "quick": 500,
-              "thorough": 6000
+              "thorough": 18000
           },
           fork=True,
           rust=True,
@@ -383,6 +383,6 @@ STAGES = [
           strategy=lambda tier: strategy_pmap(tier),
           examples={
               "quick": 3000,
-              "thorough": 60000
+              "thorough": 180000
           }),
 ]
